@@ -27,7 +27,7 @@ RULE = ('Case = generated program (free grammar: normal end, terminal phase, ter
         'exception, OSError, KeyError or UnicodeDecodeError), or a repeated/overlapping execute; distinct by canonical case.  Plus (scheduled): 2-3 threads call execute() on '
         'one Test at the same time, every single preemption at line granularity; each call returns True or raises '
         'InvalidTestStateError, one complete record per returning call, body invocations of two runs never overlap, the Test is '
-        'clean afterwards (non-trivial there = effective preemption with a refused or second successful call).')
+        'clean afterwards (non-trivial there = effective preemption with a refused or second successful call).  Final: every record is deep-copied when handed over and compared again after the last run; meanwhile a phase of each later run edits nested declared metadata in its own record and a configuration value changes in place.')
 ASSUMPTIONS = ['Abort is delivered via Test.abort_from_sig_int() from a helper thread started by a phase body (real signal delivery is not exercised here; see C04).']
 
 _BASE = {'threads': None}
@@ -147,6 +147,20 @@ def check(case):
     first = [n for n, _ in progs.walk(prog['nodes']) if n['t'] == 'phase']
     if first and first[0]['id'] not in ctx.hooks:
       ctx.hooks[first[0]['id']] = lambda test_api, inv, plugs: setattr(test_api, 'dut_id', case['set_dut'])
+  # "complete and final": the test declares nested metadata which a phase of every run edits in its own record, and the
+  # configuration holds a mutable value that changes in place after each run; records handed over earlier stay as they were
+  import copy  # pylint: disable=g-import-not-at-top
+  handed_over = []
+  try:
+    test.descriptor.metadata['fixture'] = {'slots': ['a']}
+  except Exception:  # pylint: disable=broad-except
+    pass
+  else:
+    firstp = [n for n, _ in progs.walk(prog['nodes']) if n['t'] == 'phase']
+    if firstp and firstp[0]['id'] not in ctx.hooks and not special:
+      def edit_own_record(test_api, inv, plugs):
+        test_api.test_record.metadata['fixture']['slots'].append('run-%d' % current['run'])
+      ctx.hooks[firstp[0]['id']] = edit_own_record
   nontrivial = bool(sum(cbspec)) or case['runs'] > 1 or bool(special)
   classes = ['cbs:%d' % len(cbspec), 'raising:%d' % sum(cbspec), 'runs:%d' % case['runs']] + (['special:' + special[0]] if special else []) + (
       ['plug_teardown_timeout_s:%s' % case.get('ptt')] if prog.get('plugs') else [])
@@ -165,9 +179,10 @@ def check(case):
       snap_box.append(configuration.CONF._asdict())  # pylint: disable=protected-access
       return test.execute(test_start=tsarg)
 
+    probe_value = [run]
     try:
       if run % 2 == 0:   # the configuration differs from run to run: even runs have one more key loaded
-        ret = configuration.CONF.save_and_restore(vf_c09_probe=run)(do_run)()
+        ret = configuration.CONF.save_and_restore(vf_c09_probe=probe_value)(do_run)()
       else:
         ret = do_run()
     except BaseException as e:  # pylint: disable=broad-except
@@ -199,6 +214,8 @@ def check(case):
       if rec.metadata.get('test_name') != 'openhtf_test':
         r.bad('C09/incomplete/metadata', 'run %d: test_name %r' % (run, rec.metadata.get('test_name')))
       exp_dut = None
+      handed_over.append((run, rec, copy.deepcopy(rec.metadata)))
+      probe_value.append('changed-after-run-%d' % run)
       if current['state_running_phase'] is not None:
         r.bad('C09/phase-still-running', 'run %d: a phase is still marked running when callbacks are called' % run)
       summaries.append((rec.outcome, [(p.name, p.outcome, str(p.result.phase_result) if p.result and not hasattr(p.result.phase_result, 'exc_type') else 'EXC')
@@ -217,6 +234,14 @@ def check(case):
       if special[0] == 'abort' and overlap_result and overlap_result[0][0] == 'abort-did-not-kill':
         classes.append('abort-did-not-kill')
   ctx.cancel.set()
+  for run, rec, meta in handed_over:
+    if rec.metadata != meta:
+      changed = sorted(k for k in set(meta) | set(rec.metadata) if meta.get(k) != rec.metadata.get(k))
+      r.bad('C09/record-changed-after-handover', 'the record of run %d was handed to the callbacks with metadata[%s]=%r; after %d runs it reads %r' % (
+          run, changed[0], meta.get(changed[0]), case['runs'], rec.metadata.get(changed[0])))
+      break
+  if case['runs'] > 1 and handed_over:
+    classes.append('earlier-records-rechecked')
   # consecutive runs produce equally shaped records (isolation itself is C11's business; here: re-execution works)
   if len(summaries) >= 2 and not special:
     if any(s != summaries[0] for s in summaries[1:]) and not any(p['o'].get('to') == 0 for p in progs.all_phases(prog)):
